@@ -1,13 +1,13 @@
-(* The regenerated inventory of write sites has, per source file, exactly the
-   numbers of sites of each kind and destination class that the heap model accounts
-   for; a new write site, or an old one whose destination is no longer a buffer of
-   the call's own, breaks this file (renaming a function does not). *)
+(* In the regenerated inventory of write sites the only destination that is not a
+   buffer of the call's own is the listed one; a write site whose destination is
+   (or becomes) memory reachable from an argument breaks this file.  Adding,
+   renaming or moving a write into a fresh buffer does not. *)
 From Coq Require Import String List.
 From V Require Import Gen.WriteSites Model.HeapSites.
 Import ListNotations.
 
-(* the checked tie: counts per file, kind and class; and the one shared destination *)
-Lemma inventory_counts : counts_ok write_sites = true.
+(* the checked tie: every site is classified, and the one shared destination *)
+Lemma inventory_classified : classes_known write_sites = true.
 Proof. vm_compute. reflexivity. Qed.
 
 Lemma shared_destinations : shared_files_of write_sites = allowed_shared_files.
